@@ -192,3 +192,20 @@ pub fn nested_array_text(depth: usize, leaf: &str) -> String {
 pub fn nested_object_text(depth: usize, leaf: &str) -> String {
     format!("{}{}{}", r#"{"a":"#.repeat(depth), leaf, "}".repeat(depth))
 }
+
+/// All tuples of length n over the alphabet, in lexicographic (simplest-first) order.
+pub fn tuples(a: &[Value], n: usize) -> Vec<Vec<Value>> {
+    let mut out: Vec<Vec<Value>> = vec![vec![]];
+    for _ in 0..n {
+        let mut next = Vec::with_capacity(out.len() * a.len());
+        for t in &out {
+            for x in a {
+                let mut u = t.clone();
+                u.push(x.clone());
+                next.push(u);
+            }
+        }
+        out = next;
+    }
+    out
+}
